@@ -606,6 +606,24 @@ func run(s *core.Shard) {
 			n = k
 		}
 	}
+	for i := 0; i < 7; i++ {
+		if !s.Mine(n + 160 + i) {
+			continue
+		}
+		if !s.Begin(fmt.Sprintf("dollar-or-label/%d", i)) {
+			continue
+		}
+		var c *Case
+		if i < 4 {
+			c = dollarBase(i)
+		} else {
+			c = labelledMain(i - 4)
+		}
+		if judge(s, c) {
+			s.Cover("placement", c.Shape)
+			s.Nontrivial(c.Ext.Key())
+		}
+	}
 	for i := 0; i < 2; i++ {
 		if !s.Mine(n + 158 + i) {
 			continue
